@@ -22,7 +22,7 @@ exact-arithmetic (`ℝ`) reading (rounding is not modelled) — or, where stated
   the clamped complement of the mirrored call, for every choice of the sub-kernels), `ib_swapped_le`
   (clamp), `ib_hangs_only_in_series`; the two continued fractions are bounded by the code's own
   300 rounds (total functions in the model).
-* `qBeta`: `qBeta_exc_iff`, `qBeta_ends`, `qBeta_reflect` (`qBeta(p;a,b) = 1 − qBeta(1−p;b,a)` for
+* `qBeta`: `qBeta_raises_iff`, `qBeta_ends`, `qBeta_reflect` (`qBeta(p;a,b) = 1 − qBeta(1−p;b,a)` for
   `1/2 < p < 1`, exactly, by construction of the tail swap), `qBeta_terminates` (both Newton loops
   are bounded by `niterations`: `qBeta` returns whenever `pBeta` does).
 -/
@@ -489,7 +489,7 @@ theorem qbLowerTail_ne (pb : ℝ → ℝ → ℝ → R ℝ) (bad : R ℝ) (hbad 
 
 /-- **Guard completeness**: given that `pBeta` does not raise at the points the iteration queries
 (its own guard: `ib_exc_iff`), `qBeta` raises iff `prob ∉ [0,1]` or a shape is negative -/
-theorem qBeta_exc_iff (lg : ℝ → ℝ) (pb : ℝ → ℝ → ℝ → R ℝ) (hpb : ∀ x y z, pb x y z ≠ .exc) (prob p q : ℝ) :
+theorem qBeta_raises_iff (lg : ℝ → ℝ) (pb : ℝ → ℝ → ℝ → R ℝ) (hpb : ∀ x y z, pb x y z ≠ .exc) (prob p q : ℝ) :
     qBeta lg pb prob p q = .exc ↔ (prob < 0 ∨ 1 < prob ∨ p < 0 ∨ q < 0) := by
   unfold qBeta
   by_cases h1 : prob < 0 ∨ 1 < prob
